@@ -24,6 +24,7 @@ func init() {
 			ruleC10O3(r)
 			ruleC10O5(r)
 			ruleC10P1(r)
+			ruleC10O6(r)
 		},
 	})
 }
@@ -472,4 +473,76 @@ func ruleC10P1(r *Run) {
 		})
 	}
 	_ = types.Typ
+}
+
+// ruleC10O6: sends to channels drained by API calls are cancellable.
+func ruleC10O6(r *Run) {
+	r.Begin("O6", "no dispatcher left behind: a channel field of wire.ClientConn that is received from in an exported method (its consumer is the caller, who may stop) is sent to only inside a select that also watches a Done() channel or has a default case; a plain send there blocks the read loop forever once the consumer stops, and the connection's goroutines outlive Close", 2)
+	p := r.P
+	// channel fields received from in exported methods
+	apiDrained := map[string]bool{}
+	for _, fn := range p.Funcs {
+		if fnPkgPath(fn) != modPath+"/wire" || recvTypeName(fn) != "ClientConn" || fn.Parent() != nil {
+			continue
+		}
+		if obj, _ := fn.Object().(*types.Func); obj == nil || !obj.Exported() {
+			continue
+		}
+		allInstrs(fn, func(ins ssa.Instruction) {
+			if sel, ok := ins.(*ssa.Select); ok {
+				for _, st := range sel.States {
+					if st.Dir == types.RecvOnly {
+						for _, l := range p.Leaves(st.Chan, provOpts{}) {
+							if strings.HasPrefix(l, "field:/wire.ClientConn.msg") {
+								apiDrained[strings.TrimPrefix(l, "field:")] = true
+							}
+						}
+					}
+				}
+			}
+		})
+	}
+	r.Stat("api_drained_channels", len(apiDrained))
+	n := 0
+	for _, fn := range p.Funcs {
+		if fnPkgPath(fn) != modPath+"/wire" {
+			continue
+		}
+		name := fnName(fn)
+		allInstrs(fn, func(ins ssa.Instruction) {
+			switch x := ins.(type) {
+			case *ssa.Send:
+				for _, l := range p.Leaves(x.Chan, provOpts{}) {
+					if apiDrained[strings.TrimPrefix(l, "field:")] {
+						n++
+						r.Check(fmt.Sprintf("%s send %s", name, l[strings.LastIndexByte(l, '.')+1:]), false, p.pos(x.Pos()), name, "plain blocking send on "+l+", whose consumer is an API call")
+					}
+				}
+			case *ssa.Select:
+				for _, st := range x.States {
+					if st.Dir != types.SendOnly {
+						continue
+					}
+					for _, l := range p.Leaves(st.Chan, provOpts{}) {
+						if !apiDrained[strings.TrimPrefix(l, "field:")] {
+							continue
+						}
+						n++
+						okSel := !x.Blocking
+						for _, st2 := range x.States {
+							if st2.Dir == types.RecvOnly {
+								if _, isDone := doneLike(st2.Chan); isDone {
+									okSel = true
+								}
+							}
+						}
+						r.Check(fmt.Sprintf("%s send %s", name, l[strings.LastIndexByte(l, '.')+1:]), okSel, p.pos(x.Pos()), name, "send on "+l+" inside a select with a Done() or default case")
+					}
+				}
+			}
+		})
+	}
+	if n == 0 {
+		r.Undecided("sends to API-drained channels", "none found")
+	}
 }
